@@ -20,14 +20,17 @@ def replay_opts(tag, rec):
     impl.ensure_repo()
     out = []
     flags = rec['flags']
-    key = 'twopl=%d stab=%d flags=%s' % (rec['twopl'], rec['stab'], ' '.join('%s@%s%s' % (f['c'], f['pos'], f['x'] or '') for f in flags))
+    nm = rec.get('names')
+    key = 'twopl=%d stab=%d flags=%s' % (rec['twopl'], rec['stab'], ' '.join('%s@%s%s' % ((nm['flags'][i] if nm else f['c']), f['pos'], f['x'] or '') for i, f in enumerate(flags)))
+    if nm and nm['fixed']['f'] != '-f':
+        key += ' long fixed options'
 
     def cl(name, ok, what=''):
         out.append((name, bool(ok), key + ' | ' + name, what, None if ok else {'behaviour': rec, 'observed': what}, 'C16'))
         return ok
     o = {'na': 3, 'twopl': rec['twopl'], 'pc': False, 'stab': rec['stab'], 'flags': flags}
     missing = os.path.join(common.scratch(), 'no-such-dir', 'no-such-file.txt')
-    st, val = impl.construct_solver(solverplay.argv_of(o, missing))
+    st, val = impl.construct_solver(solverplay.argv_of(o, missing, nm))
     if rec['refused']:
         cl('refused_is_usage_error_before_reading', st == 'exit' and val == 2,
            'Solver(argv) with a missing file -> %s %s (expected SystemExit(2) from the option check)' % (st, val))
@@ -36,7 +39,7 @@ def replay_opts(tag, rec):
            'Solver(argv) with a missing file -> %s %s (expected FileNotFoundError: options accepted)' % (st, val))
         path = impl.write_text(INST)
         try:
-            argv = solverplay.argv_of(o, path)
+            argv = solverplay.argv_of(o, path, nm)
             r = solverplay.run_once(argv, seed=1, getters=('short',))
             st, S = r['construct']
             if cl('accepted_constructs', st == 'ok', '%s %s' % (st, S)):
@@ -53,7 +56,7 @@ def replay_opts(tag, rec):
         finally:
             os.unlink(path)
     return out, {'hash': key, 'refused': rec['refused'], 'n': len(flags),
-                 'sample': {'argv': solverplay.argv_of(o, '<file>')[2:], 'spec_refused': rec['refused'], 'spec_order': rec['order']}}
+                 'sample': {'argv': solverplay.argv_of(o, '<file>', nm)[2:], 'spec_refused': rec['refused'], 'spec_order': rec['order']}}
 
 
 def main(tier, seed):
@@ -69,12 +72,12 @@ def main(tier, seed):
             rep.distinct.add(info['hash'])
         rep.sample(info['sample'])
     try:
-        runs = [('<=2 flags exhaustive', dict(PosDomain=posdom, MaxFlags=2, MinFlags=0, ExtraMode='none'), None),
-                ('<=2 flags with extras, positions 1..3', dict(PosDomain={1, 2, 3}, MaxFlags=2, MinFlags=1, ExtraMode='some'), None),
-                ('3..9 flags sampled', dict(PosDomain=set(range(0, 11)), MaxFlags=9, MinFlags=3, ExtraMode='some'), 4000 if q else 60000),
-                ('1..9 flags legal positions sampled', dict(PosDomain=set(range(1, 10)), MaxFlags=9, MinFlags=1, ExtraMode='some'), 3000 if q else 40000)]
+        runs = [('<=2 flags exhaustive', dict(PosDomain=posdom, MaxFlags=2, MinFlags=0, ExtraMode='none', Spellings={False, True}), None),
+                ('<=2 flags with extras, positions 1..3', dict(PosDomain={1, 2, 3}, MaxFlags=2, MinFlags=1, ExtraMode='some', Spellings={False, True}), None),
+                ('3..9 flags sampled', dict(PosDomain=set(range(0, 11)), MaxFlags=9, MinFlags=3, ExtraMode='some', Spellings={False, True}), 4000 if q else 60000),
+                ('1..9 flags legal positions sampled', dict(PosDomain=set(range(1, 10)), MaxFlags=9, MinFlags=1, ExtraMode='some', Spellings={False, True}), 3000 if q else 40000)]
         if not q:
-            runs.append(('<=3 flags exhaustive', dict(PosDomain=posdom, MaxFlags=3, MinFlags=3, ExtraMode='none'), None))
+            runs.append(('<=3 flags exhaustive', dict(PosDomain=posdom, MaxFlags=3, MinFlags=3, ExtraMode='none', Spellings={False}), None))
         for i, (label, consts, sim) in enumerate(runs):
             kw = {}
             if sim:
